@@ -2135,7 +2135,7 @@ def run_case(rep, case, seen_sig):
 
 def run_shard(rep, tier, seed, shard, nshards):
     dl = Deadline(budget(tier, 40, 400))
-    ncases = budget(tier, 4000, 40000)
+    ncases = budget(tier, 12000, 60000)
     seen_sig = {}
     for k in range(ncases):
         if dl.expired():
